@@ -224,6 +224,7 @@ func TestVerifC18Codecs(t *testing.T) {
 		msg   proto.Message
 	}
 	var holding []held
+	reused := map[string]proto.Message{}
 	checkHeld := func() {
 		for _, h := range holding {
 			if !bytes.Equal(h.data, h.copy) {
@@ -306,6 +307,24 @@ func TestVerifC18Codecs(t *testing.T) {
 				} else {
 					rep.Count("unknown_rejected_"+c.Name(), 1)
 				}
+				// a destination that already holds a message (a receive loop keeping one object): decoding replaces it.
+				// The destinations are: one that holds the previous message of this type, and the one that just
+				// rejected a message with an unknown field.
+				typ := string(m.ProtoReflect().Descriptor().FullName())
+				dsts := map[string]proto.Message{"after-rejected-message": out4}
+				if prev := reused[c.Name()+"/"+typ]; prev != nil {
+					dsts["holding-previous-message"] = prev
+				}
+				for what, dst := range dsts {
+					if err := c.Unmarshal(data, dst); err != nil {
+						rep.Violation("conv/codec/"+c.Name()+"/reused-destination-error/"+what, fmt.Sprintf("decoding a valid message into a destination %s fails: %v", what, err), w)
+					} else if !proto.Equal(m, dst) {
+						rep.Violation("conv/codec/"+c.Name()+"/reused-destination-differs/"+what, fmt.Sprintf("decoding into a destination %s does not give the decoded message (old contents survive)", what), w)
+					} else {
+						rep.Count("reused_destination_ok", 1)
+					}
+				}
+				reused[c.Name()+"/"+typ] = proto.Clone(m)
 			})
 			if p != nil {
 				rep.Violation("conv/codec/"+c.Name()+"/panic/"+p.Site, p.Value, w)
